@@ -155,6 +155,26 @@ def run(chk):
         b = impl_eject([lam * x for x in M], [lam * x for x in N], lam * E)
         if a[0] != b[0] or (a[0] == "Ok" and not (C.all_same([lam * x for x in a[1]], b[1]) and C.all_same([lam * x for x in a[2]], b[2]))):
             chk.fail("BH ejection is homogeneous (power-of-two scale factors: bit-exact)", dict(M=M, N=N, E=E, lam=lam), dict(base=a[:3], scaled=b[:3]))
+    # the BH-target ejection likewise: scaling every BH bin and the total mass leaves the target fraction, hence the bins emptied, unchanged
+    from props.C08 import impl_fbh
+    for _ in range(200 if chk.tier == "quick" else 2000):
+        M, N = gen_array(rng, nmax=12)
+        if rng.random() < 0.5:
+            # sparsely populated bins: between a tenth of an object and a few objects each
+            N = [0.0 if x == 0 else rng.choice([0.15, 0.3, 0.6, 0.84, 1.5, 3.0]) for x in N]
+            M = [n_ * 10.0 * (1.15 ** i_) for i_, n_ in enumerate(N)]
+        Mbh = float(sum(M))
+        if Mbh <= 0:
+            continue
+        Mtot = Mbh * rng.choice([2.0, 16.0, 64.0, 10 ** rng.uniform(0.1, 3)])
+        f = (Mbh / Mtot) * rng.choice([0.03125, 0.25, 0.5, 0.75, rng.random()])
+        lam = rng.choice([0.125, 0.5, 2.0, 8.0, 128.0])
+        a = impl_fbh(M, N, Mtot, f)
+        b = impl_fbh([lam * x for x in M], [lam * x for x in N], lam * Mtot, f)
+        chk.count("BH-target ejection scale pairs")
+        if a[0] != b[0] or (a[0] == "Ok" and not (C.all_close([lam * x for x in a[1]], b[1], rtol=1e-12, atol=0) and C.all_close([lam * x for x in a[2]], b[2], rtol=1e-12, atol=0))):
+            chk.fail("multiplying N0 and the escape rate by the same factor multiplies every count by that factor (ejection towards a BH mass-fraction target)",
+                     dict(M=M, N=N, Mtot=Mtot, f_BH=f, lam=lam), dict(base=a[:3], scaled=b[:3]))
     # ---- full constructions ---------------------------------------------------------------------
     nrun = 3 if chk.tier == "quick" else 20
     classes = [("EvolvedMF", {}), ("EvolvedMFWithBH", dict(f_BH=0.002)), ("EvolvedMF", dict(natal_kicks=True, BH_ret_dyn=0.2, vesc=150))]
